@@ -287,6 +287,25 @@ PROPS = {
   'trusted_base': ['hand model tied by differential execution', 'codec contract of fdeflate / flate2 (Section hypotheses inflate_compress, bounded, inflate_bytes of Proofs/TextProofs.v)', 'counting global allocator harness/src/alloc.rs'],
   'assumptions': ['a Rust String is the list of its Unicode scalar values', 'peak allocation bound 3*limit + 70000 bytes (output buffer + String conversion + decompressor tables) is the harness\'s reading of "never materialises more than that many bytes"'],
  },
+ 'C17': {
+  'level_text': 'Coq theorems (closed under the global context): for ALL values, the decoder model\'s chunk parser applied to the payload built by the model of the encoder stores exactly the value given - pHYs, gAMA, cHRM, sRGB, acTL, '
+                'fcTL (nine fields), PLTE, tRNS (indexed bytes / gray sample value), eXIf, iCCP (any size within the budget), tEXt, zTXt, iTXt (keyword, flag, language tag, translated keyword, text); keyword acceptance is exactly '
+                '"1..79 characters, all Latin-1"; tEXt/zTXt refuse non-Latin-1 text, iTXt refuses a non-ASCII language tag, all three refuse a bad keyword; with sRGB set only substitutes and no ICC profile are written and the accessors report the substitutes. '
+                'Compressor/inflater universally quantified under the codec contract. Encoder payload builders and the header emission order are tied to the crate by differential execution of every header, text and fcTL payload the real encoder writes.',
+  'level_note': 'Trusted: Coq kernel; hand models Model/MetaEnc.v (encoder payloads) and Model/Stream.v (decoder parsers, shared with C16) tied by differential execution; codec contract of flate2/fdeflate (hypotheses inflate_compress, zall_K); chunk framing '
+                'is C12/C04/C11, not re-proved here. Known finding: a zero-length eXIf block is read back as absent (the decoder never parses zero-length chunks).',
+  'gen_items': [],
+  'model_name': 'Model/MetaEnc.v header_chunks, enc_text, enc_ztxt, enc_itxt, enc_fctl, enc_iccp + Model/Stream.v parse_*',
+  'rule': 'cases = (a) refusal matrix: 7 bad + 4 boundary keywords x 3 text kinds x {header, write_text_chunk}; non-Latin-1 text; non-ASCII language tags; (b) all sRGB intents x gamma {none, substitute, other} x chromaticities x ICC x {Info fields, setters}; '
+          'u32 boundaries for pHYs/gAMA/cHRM; all dispose x blend ops x separate default image; (c) 700 (6000) random metadata sets: 15 colour/depth pairs, optional items, blobs 0 B .. 70 KiB (400 KiB), Latin-1 keywords incl. control / NBSP characters, '
+          'Unicode texts, pre-compressed chunk objects, late text chunks, 1-4 frames with random rectangles/delays/ops. Each: encode with the crate, compare every header / text / fcTL payload with the extracted model (zlib tails inflated), decode with the crate, '
+          'compare every item through Info / gamma() / chromaticities() / frame_control / get_text. distinct = (colour, depth, sRGB, ICC size class, EXIF, animation, separate default, text count, API path).',
+  'trusted_base': ['hand models tied by differential execution', 'codec contract of flate2 / fdeflate (Section hypotheses of Proofs/MetaEncProofs.v and Proofs/TextProofs.v)'],
+  'assumptions': ['keywords, language tags and translated keywords without NUL (a NUL there is the field separator; "where legal" in the property)',
+                  'tRNS of gray/RGB images below 16 bits: the sample value (low byte) is what Info.trns holds; high bytes are zero in legal files',
+                  'frame sequence numbers are not compared (they depend on the number of fdAT chunks; continuity is C12)',
+                  'with sRGB set, gamma/chromaticities other than the substitutes and ICC profiles are not written (documented on Encoder::set_source_srgb); the accessors then report the substitutes'],
+ },
 }
 
 NOT_APPLICABLE = {}
